@@ -84,6 +84,11 @@ OP_ALPHABET = [
 
 
 class HistorySuite(Suite):
+    has_py_property = True
+
+    def py_property(self, case, out):
+        return property_violation(case, out)[0] if property_violation(case, out) else None
+
     name = "protein_groups_history"
     imports = "From PGF Require Import Base.Prelude Model.ProteinGroups Harness.H20."
     case_type = ("(list (list str) * list op * list lk) * (list outc * list (res (list (list str) * list nat) "
